@@ -2,6 +2,7 @@ SPECIFICATION Spec
 CONSTANTS FullLen = 3
           SparseLen = 7
           PairLen = 3
+          LongLens = {253, 254, 255, 256, 257, 258, 509, 510, 511, 512, 513, 514}
 INVARIANTS TypeOK UnreadIntact WriteBehindRead PairsInRange InPlaceSame
            KRoundTrip KEncCanonical KRightInverse KFlagBits KKeybytesRoundTrip KLeafExtDistinct
            Emit
